@@ -6,6 +6,7 @@
    document: it is the not yet proved lemma about parsed trees). *)
 From TV Require Import Base.Prelude Base.Utf8 Model.Tree Model.Document Spec.SerdeData Model.De Model.SerdeRoutes Model.FrontEnds.
 From TV Require Import Model.Datetime Model.DatetimeStd Extract.Show.
+From TV Require Model.AccessorsToml.
 Require Import String.
 
 Definition fverdict {A} (parser_ok : bool) (r : fres A) : bytes :=
@@ -54,7 +55,19 @@ Definition cmd_docv_front (s : bytes) : bytes :=
   | PPanic _ => str "PANIC-model"
   end.
 
+(* accv: toml::from_str::<Value>, then every node looked at through toml::Value's read API only
+   (type_str, same_type against one probe per kind, is_x, as_x, get by index and by key); Model/AccessorsToml.v.
+   `-` when the document holds a float (FUnmodelled: the bits are std's) *)
+Definition cmd_accv_front (s : bytes) : bytes :=
+  match toml_from_str_value s with
+  | FOk v => str "ok accv=" ++ AccessorsToml.acc_tv v
+  | FUnmodelled => str "-"
+  | FPanic => str "PANIC-model"
+  | _ => str "err"
+  end.
+
 Definition run_cmd (name : bytes) (args : list bytes) : bytes :=
   if bytes_eqb name (str "docf") then match args with [s] => cmd_docf_front s | _ => str "bad-args" end
   else if bytes_eqb name (str "docv") then match args with [s] => cmd_docv_front s | _ => str "bad-args" end
+  else if bytes_eqb name (str "accv") then match args with [s] => cmd_accv_front s | _ => str "bad-args" end
   else str "unknown-command".
